@@ -71,8 +71,8 @@ WEIGHTS = {
     "filter": dict(listencond=5, listenadapt=3, listen=10, listenfront=2, unlisten=4, dispatch=22, enqueue=14, process=8, processone=4, processif=3,
                    addfilter=14, removefilter=8, emptyq=1),
     "qcopy": dict(listen=12, listenfront=3, listenbefore=4, unlisten=6, hasany=2, dispatch=8, enqueue=20, process=8,
-                  processone=5, processif=3, peek=2, take=3, clear=1, emptyq=8, addfilter=3, removefilter=1, qcopy=9, qmove=5,
-                  dqnb=5, dqne=3),
+                  processone=5, processif=3, peek=2, take=3, clear=1, emptyq=8, addfilter=3, removefilter=1, qcopy=7, qmove=4,
+                  qassign=4, qmoveassign=3, qselfassign=4, dqnb=5, dqne=3),
     "ordered": dict(listen=8, unlisten=2, enqueue=34, process=8, processone=8, processif=10, processuntil=8, peek=4, take=5,
                     clear=1, emptyq=2, dispatch=2),
 }
@@ -83,6 +83,9 @@ def _cmd(rng, profile, nk, issued, cbs, preds, filters, inside=False, allow_proc
     if inside:
         w.pop("qcopy", None)
         w.pop("qmove", None)
+        w.pop("qassign", None)
+        w.pop("qmoveassign", None)
+        w.pop("qselfassign", None)
         w.pop("dqnb", None)
         w.pop("dqne", None)
         # inside listeners / predicates / filters: mutate near the running entry, enqueue, observe
@@ -120,7 +123,7 @@ def _cmd(rng, profile, nk, issued, cbs, preds, filters, inside=False, allow_proc
         return "addfilter %d" % rng.choice(filters)
     if op == "removefilter":
         return "removefilter %s" % _handle(rng, issued, inside)
-    if op in ("qcopy", "qmove"):
+    if op in ("qcopy", "qmove", "qassign", "qmoveassign"):
         # storage pattern the new object is constructed over
         return "%s %d" % (op, rng.choice([0, 255, 255, 90, 165]))
     return op
